@@ -359,4 +359,44 @@ def fail (fs0 : FS) (tr : List Op) (k : Nat) : FS := closeAll (crash fs0 tr k)
 def Complete (fs0 : FS) (tr : List Op) (v : Option File) (o : Path) : Prop :=
   v = get (run fs0 tr) o ∧ ∃ f, v = some f ∧ f.openW = false
 
+/-! ### two-run histories: leftovers of a failed run -/
+
+/-- temporaries of `r` that do not exist in `fs` -/
+def absentTemps (r : Roles) (fs : FS) : List Path := r.temps.filter (fun t => (get fs t).isNone)
+
+/-- the file system without any (leftover) temporary -/
+def eraseTemps (r : Roles) (fs : FS) : FS := fs.filter (fun e => !r.temps.contains e.1)
+
+/-- paths whose current state an operation looks at (its effect, or what the program learns,
+depends on them) -/
+def reads : Op → List Path
+  | .unlink _ => []
+  | .create _ => []
+  | .write p _ => [p]
+  | .close p => [p]
+  | .rename p _ => [p]
+  | .openRead p => [p]
+  | .openAppend p => [p]
+
+/-- paths whose state after the operation no longer depends on what was there before -/
+def resets : Op → List Path
+  | .unlink p => [p]
+  | .create p => [p]
+  | _ => []
+
+/-- "fresh temporaries": the run never looks at a temporary before it has removed or truncated
+it (`known` = temporaries whose state is already independent of leftovers) -/
+def freshFrom (temps : List Path) : List Path → List Op → Bool
+  | _, [] => true
+  | known, op :: rest =>
+    (reads op).all (fun p => !temps.contains p || known.contains p) &&
+    freshFrom temps (known ++ resets op) rest
+
+/-- index of the first operation that looks at a leftover temporary -/
+def firstStale (temps : List Path) : List Path → List Op → Nat → Option Nat
+  | _, [], _ => none
+  | known, op :: rest, k =>
+    if (reads op).all (fun p => !temps.contains p || known.contains p)
+    then firstStale temps (known ++ resets op) rest (k + 1) else some k
+
 end DclabModel.Cli
